@@ -40,6 +40,10 @@ CLAIMED['C11'] = dict(level=MC, ref='DESIGN.md §4 C11',
    text='Two composite model graphs built from JSON (tree likelihood with ratio-parameterised time tree, strict clock, HKY, Weibull+invariant site model, constant coalescent on an Exp-transformed parameter, a view parameter, a prior and a variational Distribution, joint; and a GMRF / skygrid / MG94 graph on a concatenated + transformed field) are driven through enumerated histories of update operations (direct assignment, assignment through view / concatenation / transformed parameter, in-place write + change notification, rsample of a Distribution, operator step + reject). Every assignment writes fresh symbols; after each operation every model value and derived tensor must be the same expression as that of a freshly built copy holding the same symbols. Identical hash-consed expressions close a goal syntactically; any difference is a solver query whose model is replayed on the real models (real HKY) before being reported; a solver vacuity guard per step shows the update can change an observed value. An exception during any update is a violation.',
    note='Histories of length <= 2 quick / 3 thorough (sampled triples); substitution_model.p_t is an uninterpreted function of (branch argument, kappa, frequencies); optimiser steps are modelled as in-place write + fire_parameter_changed (Optimizer._run itself is not executed); 3 taxa.',
    technique=TECH_A + '; enumerated update histories with fresh symbols per assignment, relational comparison with a fresh rebuild')
+CLAIMED['C12'] = dict(level=MC, ref='DESIGN.md §4 C12',
+   text='Every listed density (constant / exponential / skyride / skygrid / piecewise-linear coalescents, GMRF plain and time-aware, CTMC scale, compound gamma-Dirichlet prior, Distribution wrapper, joint, tree likelihood with JC69 x {unrooted, strict, per-branch clock} x {constant, invariant, Weibull}, and the same densities reached through the ratio / root-height and Exp transforms incl. the node-height log-Jacobian and the rescaled likelihood path) is executed symbolically; the gradient autograd delivers is obtained by reverse differentiation of the recorded DAG that stops exactly where autograd stops (detach, no_grad, .item()/torch.tensor rebuilds) and is compared by the solver with the true derivative (stops ignored) for all parameter values on every path region; each influencing parameter must admit a point with non-zero gradient (existential solver query). The engine\'s autograd model is cross-checked against real torch.autograd at every witness; replays use finite differences on the real model.',
+   note='Reals not floats; torch\'s own derivative formulas trusted; ties between event times outside; derivative through eigendecompositions not modelled (likelihood gradients with JC69 only); BDSK gradients outside; the rescaled likelihood path has no coverage certificate (explored regions only); 3 taxa.',
+   technique=TECH_A + '; autograd modelled by symbolic reverse differentiation with stop nodes, compared with the stop-free derivative')
 CLAIMED['C16'] = dict(level=MC, ref='DESIGN.md §4 C16',
    text='The real LeapfrogIntegrator.__call__, Hamiltonian.kinetic_energy and HMCOperator._step/step/reject are executed with the target an UNINTERPRETED differentiable function: model() returns U(q), backward() is answered by symbolic reverse differentiation so the gradient and Hessian are uninterpreted function symbols. For symbolic positions, momenta, step size and SPD inverse mass matrix (diagonal and dense) the solver proves: flip-and-return gives (q,-p); det d(q\',p\')/d(q,p) = 1; the energy error and its first derivative in the step size vanish at 0 (so the error is O(eps^2)); the operator returns K(p_start)-K(p_end), proposes the trajectory end point, retries after a numerical failure and reject() restores the identical state. Bounded in dimension and number of steps (the loop body is the same for every step).',
    note='Reals not floats ("up to round-off" is outside the claim); dimension <= 2, steps <= 2 quick / 3 thorough, one or two parameters per operator; Hessian symmetry of the target assumed (ground instances); momentum draw is an arbitrary symbolic vector; isnan guards false on real inputs; replays use torch.autograd on a quartic target.',
